@@ -13,6 +13,9 @@
   graph can hold (`_tests` and `properties` are dicts, so test names within a suite / property keys
   within a node are distinct).  The Lean types do not enforce it.
 
+  The XML serializer is modelled WITH `fixes/D8b-xml-empty-attribute-strings.diff` (optional attributes are written
+  when they are not `None`, not when they are truthy).
+
   Times are integers of milliseconds; the text layers (`json` module, `xml.etree`, ISO-8601 formatting
   and float rounding) are parameters of the model validated by the streams C09.json / C09.etnorm /
   C09.time, not theorems.
@@ -183,21 +186,22 @@ theorem xml_lone_surrogate_save_fails :
     (fromJson (toJson 9 (w (wTest (String.singleton (Char.ofNat 0x10F800)) none [] "s" none)))).toOption.isSome = true := by
   decide
 
-/-- `C09/xml/empty-status-details-loads-None`: `status_details == ""` is not written and loads back as `None`. -/
-theorem xml_empty_status_details_loads_none :
+/-- `C09/xml/empty-status-details-loads-None` — FIXED by `fixes/D8b-xml-empty-attribute-strings.diff`
+    (`if result.status_details is not None:`): an empty `status_details` is written as `status-details=""` and comes back. -/
+theorem xml_empty_status_details_preserved :
     (match xmlRoundTrip 9 (w (wTest "m" (some "") [] "s" none)) with
      | .loaded r => (match r.suites with
-        | (.mk _ _ _ _ _ (t :: _) _) :: _ => t.result.statusDetails == none
+        | (.mk _ _ _ _ _ (t :: _) _) :: _ => t.result.statusDetails == some ""
         | _ => false)
-     | _ => false) = true := by decide
+     | _ => false) = true ∧ xmlSafe (w (wTest "m" (some "") [] "s" none)) = true := by decide
 
-/-- `C09/xml/empty-link-name-loads-None`: a link named `""` loads back with name `None`. -/
-theorem xml_empty_link_name_loads_none :
+/-- `C09/xml/empty-link-name-loads-None` — FIXED by the same patch (`if link[1] is not None:`). -/
+theorem xml_empty_link_name_preserved :
     (match xmlRoundTrip 9 (w (wTest "m" none [("http://x", some "")] "s" none)) with
      | .loaded r => (match r.suites with
-        | (.mk _ _ _ _ _ (t :: _) _) :: _ => t.md.links == [("http://x", none)]
+        | (.mk _ _ _ _ _ (t :: _) _) :: _ => t.md.links == [("http://x", some "")]
         | _ => false)
-     | _ => false) = true := by decide
+     | _ => false) = true ∧ xmlSafe (w (wTest "m" none [("http://x", some "")] "s" none)) = true := by decide
 
 /-- every witness above violates exactly the guard (so the guard is not wider than needed on them),
     while the same report with a harmless message satisfies it -/
@@ -205,8 +209,6 @@ theorem witnesses_violate_guard :
     xmlSafe (w (wTest "" none [] "s" none)) = false ∧ xmlSafe (w (wTest "a\rb" none [] "s" none)) = false ∧
     xmlSafe (w (wTest "\x01" none [] "s" none)) = false ∧
     xmlSafe (w (wTest (String.singleton (Char.ofNat 0x10F800)) none [] "s" none)) = false ∧
-    xmlSafe (w (wTest "m" (some "") [] "s" none)) = false ∧
-    xmlSafe (w (wTest "m" none [("http://x", some "")] "s" none)) = false ∧
     xmlSafe (w (wTest "m" none [] "s" (some (some "")))) = false ∧
     xmlSafe (w (wTest "m" (some "why") [("http://x", some "n")] "s" (some (some "d")))) = true := by decide
 
